@@ -243,18 +243,19 @@ def gen_estab(rng, n):
 
 
 def gen_runner():
-    """scripted peers against the real runner loop (real timers, all cases run concurrently, ~2.3 s)"""
-    out = ["runner 1500", "runner 1200 5:scccn"]
+    """scripted peers against the real runner loop (real timers, all cases run concurrently, ~2.6 s).  The watch window
+    extends past the latest admissible acknowledgement time of the last inbound message (+1100 ms idle, RTO + 600)."""
+    out = ["runner 1500", "runner 1300 5:scccn"]
     for h in range(330, 1331, 100):                       # idle tunnel, then a Hello (the C16_q3 class)
-        out.append("runner %d 5:scccn %d:hello" % (h + 900, h))
-    for h in range(430, 1231, 100):                       # our ICRP in flight (RTO 1 s pending), then a Hello
-        out.append("runner %d 5:scccn 300:icrq %d:hello" % (h + 900, h))
+        out.append("runner %d 5:scccn %d:hello" % (h + 1100, h))
+    for h in range(430, 1231, 100):                       # our ICRP in flight (RTO at 1300 pending), then a Hello
+        out.append("runner %d 5:scccn 300:icrq %d:hello" % (max(h + 1100, 1900), h))
     for h in range(530, 1131, 100):                       # ICRP acknowledged, tunnel idle again, then a Hello
-        out.append("runner %d 5:scccn 300:icrq 430:ack %d:hello" % (h + 900, h))
+        out.append("runner %d 5:scccn 300:icrq 430:ack %d:hello" % (h + 1100, h))
     for h in (330, 630, 1130):                            # SCCRP never acknowledged: retransmission carries the ack
-        out.append("runner %d %d:hello" % (max(h + 900, 1500), h))
-    out.append("runner 1900 5:scccn 330:hello 380:hello 830:hello")
-    out.append("runner 2000 5:scccn 300:icrq 360:icrq 430:ack 930:hello")
+        out.append("runner %d %d:hello" % (max(h + 1100, 1600), h))
+    out.append("runner 2000 5:scccn 330:hello 380:hello 830:hello")
+    out.append("runner 2100 5:scccn 300:icrq 360:icrq 430:ack 930:hello")
     return out
 
 
@@ -582,8 +583,9 @@ def first_diff(a, b):
 
 def classify(case, impl, model):
     if case.startswith("runner"):
-        return "P", ("the tunnel runner's writes (acknowledgements / retransmissions) deviate from the runner contract "
-                     "(next Tick = reported deadline, 500 ms idle poll, 50 ms floor) beyond -120/+400 ms: observed %r, %r" % (impl, model))
+        return "P", ("the tunnel runner violates its contract: a (re)transmission more than -120/+400 ms off its deadline, or an inbound "
+                     "message not acknowledged by max(arrival + 500 ms, earliest pending retransmission deadline) + 400 ms "
+                     "(any idle poll <= 500 ms and any ZLB deadline <= zlbDelay are admissible): observed %r, HEAD-policy replay %r" % (impl, model))
     m = monitor(case, impl)
     if m:
         return "P", m
